@@ -6,7 +6,13 @@ Decided by spec/Patterns.tla + spec/PatternsTrace.tla ([RT] rule transcription):
      semantic expectation;
  (2) harness `vh patterns-replay` renders every case as real samlang (`match`; one-arm lists also as a
      destructuring `let` and an `if let`), type-checks it with the real checker and records the
-     non-exhaustive / irrefutable diagnostics and the reported counterexample;
+     non-exhaustive / irrefutable diagnostics and the reported counterexample; every fifth arm list (and every
+     one-arm list) is rendered a second time as a program of three modules: the universe in module U1, a universe
+     with the SAME class names and other variant tables (derived mechanically: one variant more per enum / one
+     variant less and longer payloads) in module U2 or U3, and the case in a third module, in a function that first
+     matches on values of every enum of the other universe and then performs the case's match; one of the two
+     universes is imported by name, the values of the other arrive through an accessor class (types by inference
+     only).  The semantic verdict of the case's match is the same as in the one-module rendering;
  (3) TLC (PatternsTrace.tla) judges every record with the semantic definitions only: accepted iff
      exhaustive, counterexample denotes only unmatched values (and at least one), if-let flagged iff
      irrefutable.  That is the verdict.  Where the transcribed algorithm predicts another answer than the
@@ -165,6 +171,12 @@ def replay_and_judge(u, uni, cases, tag, stats, feats):
         tool_failure(f"patterns-replay wrote {len(rows)} records for {len(cases)} cases")
     stats["records"] += len(rows)
     stats["replay_s"] += time.time() - t
+    stats["multi_module_records"] = stats.get("multi_module_records", 0) + summary.get("multi_module_records", 0)
+    if summary.get("prelude_diagnostics"):
+        # not a record TLC can judge (the prelude is outside the universe): shown, counted, never a verdict by itself
+        stats["prelude_diagnostics"] = stats.get("prelude_diagnostics", 0) + summary["prelude_diagnostics"]
+        log(f"NOTE: universe {u}: {summary['prelude_diagnostics']} diagnostics on the prelude matches of the multi-module rendering "
+            f"(each names every variant of its enum once)")
     for r in rows:
         feats[r["form"]] = feats.get(r["form"], 0) + 1
         if r["form"] == "iflet":
@@ -235,6 +247,8 @@ def run(tier):
                if not feats.get(k)]
     if missing and not fails and not only:      # a violation found is a verdict whatever else was (not) seen
         tool_failure(f"vacuity: no replayed case of kinds {missing}")
+    if not stats.get("multi_module_records") and not fails:
+        tool_failure("vacuity: no case was replayed in the multi-module rendering")
     coverage = {
         "states": stats["states"], "transitions": stats["transitions"],
         "traces_validated_against_impl": stats["records"],
@@ -245,6 +259,8 @@ def run(tier):
         "observed_kinds": feats,
         "model_disagreements": stats["model_disagreements"],
         "model_drift_records": stats["drift"],
+        "multi_module_records": stats.get("multi_module_records", 0),
+        "diagnostics_on_prelude_matches": stats.get("prelude_diagnostics", 0),
         "vacuity": vac,
         "replay_wall_s": round(stats["replay_s"], 1), "judge_wall_s": round(stats["judge_s"], 1),
         "exhaustive": True,
